@@ -585,6 +585,95 @@ def run_c1(prog, res):
     return stat
 
 
+def run_c3(prog, res, floor=2):
+    """a request to grow the VM stack covers what made it necessary: where the test `E >= length of the stack`
+    leads to sexp_grow_stack(ctx, A), the requested size A is at least E + 1 (as linear forms over the same
+    variables), and sexp_grow_stack does not report success after clamping the new size to a constant without
+    comparing its `min_size` parameter with that limit"""
+    from rules import c01i
+    from cfg import reach_without, elem_positions, enclosing_elem
+    stat = res.stat("C01.c3", "stack growth requests cover the compared quantity; the grower fails when its limit is below the request",
+                    floor=floor)
+    found = 0
+    for fn in prog.all_funcs():
+        if fn.unit.name not in ("vm.c", "eval.c") or not fn.blocks:
+            continue
+        cx = None
+        for i, nd in enumerate(fn.nodes):
+            if nd["k"] != "call" or nd.get("o") != "sexp_grow_stack" or len(nd["c"]) < 3:
+                continue
+            cx = cx or c01i.Ctx(fn)
+            at = c01i.enclosing_elem(fn, i, cx.pos)
+            if at is None or at[0] not in cx.reach:
+                continue
+            found += 1
+            stat.sites += 1
+            stat.obligations += 1
+            A = c01i.canon(cx, nd["c"][2], at)
+            ok = False
+            seen_cmp = False
+            for (a, pol, g) in c01i.facts_at(cx, at):
+                an = fn.nodes[a]
+                if an["k"] != "bin" or an["o"] not in (">=", ">", "<", "<=") or "stack.length" not in fn.txt(a):
+                    continue
+                l, r = an["c"]
+                o = an["o"] if pol else {"<": ">=", "<=": ">", ">": "<=", ">=": "<"}[an["o"]]
+                if "stack.length" in fn.txt(l):
+                    l, r = r, l
+                    o = {"<": ">", "<=": ">=", ">": "<", ">=": "<="}[o]
+                if o not in (">=", ">"):
+                    continue
+                seen_cmp = True
+                E = c01i.canon(cx, l, g)
+                d = c01i.add(A, E, -1)
+                need = 1 if o == ">=" else 0
+                if not d[1] and d[0] >= need:
+                    ok = True
+            if ok:
+                stat.discharged += 1
+                stat.sample({"site": fn.where(i), "function": fn.name, "request": fn.txt(nd["c"][2])[:40]})
+            else:
+                res.add(Finding("C01", "C01.c3.growth-request-too-small", fn.name, "sexp_grow_stack(%s)" % fn.txt(nd["c"][2])[:30],
+                                fn.where(i), "%s asks sexp_grow_stack for %s slots %s: the new stack need not hold what is pushed "
+                                "next, and the copy runs past the end of the stack object"
+                                % (fn.name, fn.txt(nd["c"][2])[:40],
+                                   "although the test that led here compared a larger quantity with the stack length" if seen_cmp
+                                   else "without a dominating comparison of the needed size with the stack length"), unit=fn.unit.display))
+    g = prog.func("sexp_grow_stack")
+    if g is None or not found:
+        raise AnalysisBroken("anchor vanished: sexp_grow_stack / its call sites")
+    if len(g.params) >= 2:
+        pos = elem_positions(g)
+        mp = g.params[1]
+        kills = {(b.id, len(b.elems)) for b in g.blocks.values() if b.cond is not None and mp in g.refs_in(b.cond)}
+        rets = [j for j, x in enumerate(g.nodes) if x["k"] == "ret" and x.get("c") and g.const_val(x["c"][0]) not in (0, None)]
+        for j, x in enumerate(g.nodes):
+            if x["k"] == "bin" and x["o"] == "=" and g.const_val(x["c"][1]) is not None:
+                l = g.strip(x["c"][0])
+                if g.nodes[l]["k"] == "ref" and g.vars[g.nodes[l].get("d", 0)]["n"] == "new_size":
+                    stat.sites += 1
+                    stat.obligations += 1
+                    pj = enclosing_elem(g, j, pos)
+                    bad = False
+                    cval = g.const_val(x["c"][1])
+                    # before the clamp only a comparison of min_size with that very limit counts
+                    kills_before = {(b.id, len(b.elems)) for b in g.blocks.values()
+                                    if b.cond is not None and mp in g.refs_in(b.cond)
+                                    and any(g.const_val(t) == cval for t in g.subtree(b.cond))}
+                    for rj in rets:
+                        pr = enclosing_elem(g, rj, pos)
+                        if pj and pr and reach_without(g, (g.entry, -1), pj, kills_before) and reach_without(g, pj, pr, kills):
+                            bad = True
+                    if bad:
+                        res.add(Finding("C01", "C01.c3.limit-below-request", "sexp_grow_stack", "new_size = constant", g.where(j),
+                                        "sexp_grow_stack clamps the new size to a constant and can report success on a path that never "
+                                        "compares its min_size parameter with that limit: the caller goes on as if the request had "
+                                        "been met", unit=g.unit.display))
+                    else:
+                        stat.discharged += 1
+    return stat
+
+
 def run_c2(prog, res):
     """VM: when the stack cannot be grown (sexp_grow_stack returned 0) the interpreter leaves sexp_apply; it
     must not go on executing - entering the error handler, or any other instruction, pushes onto a stack that
